@@ -668,3 +668,51 @@ Theorem C05_interface_symeig_e2e : forall (eigh : list (list R) -> list R * list
   (flip = true -> ub = true -> forall t, t < k -> exists imax, imax < d1 /\ forall i, (Rabs (mget Rops U i t) <= mget Rops U imax t)%R).
 Proof. exact interface_symeig_e2e. Qed.
 Print Assumptions C05_interface_symeig_e2e.
+
+(* --- the non_negative option at the level of svd_interface (FULL): EVERY method name / back end incl. a callable (the function
+       table is arbitrary), every mask setting, every flip setting, every input matrix: both returned factors are entrywise
+       non-negative; sq stands for sqrt (only sq >= 0 is used), eps for the machine epsilon (only eps >= 0 is used) --- *)
+Theorem C05_interface_nonneg : forall (funs : fname -> nat -> list (list R) -> triple R) meth d2 Ml n flip ub ty mask iters (sq : R -> R) eps U S V,
+  (forall t, (0 <= sq t)%R) -> (0 <= eps)%R ->
+  svd_interface Rops funs meth d2 Ml n flip ub (Some ty) mask iters sq eps = Ok (U, S, V) ->
+  nonneg_mat U /\ nonneg_mat V.
+Proof. exact interface_nonneg. Qed.
+Print Assumptions C05_interface_nonneg.
+
+(* --- svd_interface = dispatch, then an interpreter folded over the TRACE of post-processing steps (back-end call, mask loop iff a
+       mask and n_eigenvecs are given, sign flip iff flip_sign, NNDSVD iff non_negative), in this order.  On every run the harness
+       re-derives the trace (statement order and guards) from the Python ast of svd_interface and proves it equal to
+       interface_trace, and the guard of the non_negative step equal to nn_truthy --- *)
+Theorem C05_interface_traced : forall (F : Type) (Op : fops F) funs meth d2 (M : list (list F)) n flip ub nn mask iters sq eps,
+  svd_interface Op funs meth d2 M n flip ub nn mask iters sq eps =
+  match dispatch meth with
+  | None => Err
+  | Some f =>
+    Ok (snd (fold_left (run_step Op (funs f) d2 (match mask with Some m => m | None => [] end) iters ub
+                                 (match nn with Some ty => ty | None => NNDSVD end) sq eps)
+                       (interface_trace (is_some mask) (is_some n) flip (is_some nn)) (M, ([], [], []))))
+  end.
+Proof. exact @svd_interface_traced. Qed.
+Print Assumptions C05_interface_traced.
+
+(* --- with a mask, ANY back end the dispatch table selects (FULL, by induction over the imputation loop through C05_mask_loop_spec):
+       if on every d1 x d2 matrix the selected function returns factors with orthonormal columns / rows, the result is the
+       sign-resolved answer of that function on the LAST imputed matrix, which agrees with the input on every observed entry --- *)
+Theorem C05_interface_masked_generic : forall (funs : fname -> nat -> list (list R) -> triple R) meth fn d1 d2 (Ml mask : list (list R)) r flip ub
+    iters sq eps U S V pu pv,
+  dispatch meth = Some fn -> rect d1 d2 Ml -> rect d1 d2 mask -> 1 <= d1 -> 1 <= iters ->
+  (forall c X, rect d1 d2 X ->
+     let '(U0, S0, V0) := funs fn c X in
+     rect d1 pu U0 /\ rect pv d2 V0 /\ length S0 <= pu /\ length S0 <= pv /\
+     orthonormal_cols d1 pu (mget Rops U0) /\ orthonormal_rows pv d2 (mget Rops V0)) ->
+  svd_interface Rops funs meth d2 Ml (Some r) flip ub None (Some mask) iters sq eps = Ok (U, S, V) ->
+  exists Mlast c U0 S0 V0,
+    rect d1 d2 Mlast /\
+    (forall i j, i < d1 -> j < d2 -> mget Rops mask i j = 1%R -> mget Rops Mlast i j = mget Rops Ml i j) /\
+    funs fn c Mlast = (U0, S0, V0) /\
+    S = S0 /\ orthonormal_cols d1 pu (mget Rops U) /\ orthonormal_rows pv d2 (mget Rops V) /\
+    (forall i j, recon U S V i j = recon U0 S0 V0 i j) /\
+    (flip = true -> ub = true -> forall t, t < pu ->
+       exists imax, imax < d1 /\ forall i, (Rabs (mget Rops U i t) <= mget Rops U imax t)%R).
+Proof. exact interface_masked_generic. Qed.
+Print Assumptions C05_interface_masked_generic.
